@@ -26,7 +26,7 @@ LEVEL_TEXT = ("Real end-to-end runs on random coastlines (islands, one-cell chan
 LEVEL_NOTE = "The valid region and sea cells are computed independently from the grid file (mask_rho, subgrid limits). Trusts the spied velocities as the scheme's output (their correctness is C01/C02)."
 RULE = ("case = world (mask, flow, subgrid) x run (scheme, diffusion, release, IBM schedule, layout). Non-trivial: at least one move cancelled by land or one particle killed at the "
         "open boundary or one inactive particle held; distinct by case parameters.")
-MANDATORY = ["inactive_particles_followed_over_the_restart", "lonlat_release_on_off_diagonal_subgrid", "move_ending_exactly_on_a_land_cell_edge", "warm_start_records_checked_against_earlier_deaths", "record_after_everybody_died", "records_checked_against_deaths", "moved", "cancelled_by_land", "killed_at_boundary", "inactive_held", "diffusion_on", "scheme_EF", "scheme_RK2", "scheme_RK4",
+MANDATORY = ["packed_positions_in_records_compared_with_the_state", "inactive_particles_followed_over_the_restart", "lonlat_release_on_off_diagonal_subgrid", "move_ending_exactly_on_a_land_cell_edge", "warm_start_records_checked_against_earlier_deaths", "record_after_everybody_died", "records_checked_against_deaths", "moved", "cancelled_by_land", "killed_at_boundary", "inactive_held", "diffusion_on", "scheme_EF", "scheme_RK2", "scheme_RK4",
              "tracker_updates", "records_checked", "release_near_rim", "subgrid", "dense", "one_cell_channel", "release_event_adding_nobody", "reversed_time"]
 ASSUMPTIONS = ["release positions in sea cells of the valid region (as the property quantifies)"]
 TIMEOUT = {"quick": 900, "thorough": 3400}
@@ -353,8 +353,16 @@ def run_case(case: dict[str, Any], wd: Path) -> dict[str, Any]:
     sit: dict[str, int] = {}
     cnt: dict[str, int] = {}
     desc = dict(scheme=case["scheme"], diffusion=case["diffusion"], subgrid=case["subgrid"], mask_kind=case["mask_kind"], layout=case["layout"], idx=case["idx"])
+    packed = bool(case["idx"] % 4 == 1 and case["layout"] == "sparse" and "instance" not in scn["run"]["output"])
+    if packed:
+        # positions stored packed (integer type + scale_factor, as in examples/killer/dense.yaml): the record must still report every particle in the cell it is in
+        scn["run"]["output"]["instance"] = dict(pid="i4", X=dict(datatype="i4", scale_factor=1.0e-4), Y=dict(datatype="i4", scale_factor=1.0e-4), Z="f8")
+    snaps: list[dict[str, Any]] = []
     with Hooks() as hk:
         install_tracker_monitor(hk, M, box, float(case["dt"]), case["dx"], case["dx"], V, sit, cnt, desc)
+        from vmon import outcheck  # noqa: PLC0415
+
+        outcheck.snapshot_hook(hk, snaps)
         res, conf, world = run_scenario(scn, wd)
         cnt["Tracker.update calls"] = hk.counts["Tracker.update"]
         dead_at = dict(hk.dead_at)
@@ -414,8 +422,29 @@ def run_case(case: dict[str, Any], wd: Path) -> dict[str, Any]:
                                         f"(pid {back[0]} since step {dead_at[back[0]]})", **desc))
                         break
         xlo, xhi, ylo, yhi = box
+        if len(snaps) == len(recs) and not V:
+            # the cell a record reports a particle in is the cell the state had it in when the record was written (positions nearer than the storage
+            # resolution to a cell edge are not judged)
+            res_ = 1.0e-4 if packed else 1.0e-9
+            for r, sn in zip(recs, snaps):
+                if len(r.pid) != len(sn["alive_pids"]) or np.any(np.asarray(r.pid) != sn["alive_pids"]):
+                    continue  # the particle sets of the records are judged above and by C06
+                for nm in ("X", "Y"):
+                    a, b = np.asarray(sn["inst"][nm], float), np.asarray(r.vars[nm], float)
+                    clear = np.abs(a - np.floor(a) - 0.5) > res_
+                    cnt["record_cells_compared_with_the_state"] = cnt.get("record_cells_compared_with_the_state", 0) + int(clear.sum())
+                    if packed:
+                        sit["packed_positions_in_records_compared_with_the_state"] = sit.get("packed_positions_in_records_compared_with_the_state", 0) + int(clear.sum())
+                    bad = clear & (np.round(a) != np.round(b))
+                    if np.any(bad) and len(V) < 2:
+                        j = int(np.nonzero(bad)[0][0])
+                        V.append(C.viol(f"record at {r.time} reports pid {int(r.pid[j])} at {nm}={b[j]!r} (cell {int(np.round(b[j]))}), the state had it at {nm}={a[j]!r} (cell {int(np.round(a[j]))})"
+                                        + (" [positions stored packed, scale_factor 1e-4]" if packed else ""), **desc))
         for r in recs:
             X, Y = np.asarray(r.vars["X"]), np.asarray(r.vars["Y"])
+            if packed and len(X):  # not judged nearer than the storage resolution to a cell edge or to the rim
+                keep = (np.abs(X - np.floor(X) - 0.5) > 1.0e-4) & (np.abs(Y - np.floor(Y) - 0.5) > 1.0e-4) & (X > xlo + 1e-4) & (X < xhi - 1e-4) & (Y > ylo + 1e-4) & (Y < yhi - 1e-4)
+                X, Y = X[keep], Y[keep]
             if len(X) and (np.any(~np.isfinite(X)) or np.any((X <= xlo) | (X >= xhi) | (Y <= ylo) | (Y >= yhi))
                            or np.any(M[np.round(Y).astype(int), np.round(X).astype(int)] < 1)):
                 V.append(C.viol(f"record at {r.time} holds a particle outside the valid region or on land", **desc))
